@@ -14,15 +14,90 @@ def _static_obj(eng, st, key, size=16):
     return st.ext[k]
 
 
-# ---- std::locale: only the classic "C" locale exists
-@ext('_ZNSt6localeC1Ev', '_ZNSt6localeC2Ev', '_ZNSt6localeC1ERKS_', '_ZNSt6localeC2ERKS_', '_ZNSt6localeD1Ev', '_ZNSt6localeD2Ev')
+# ---- std::locale: only the classic "C" locale exists.  A locale object holds a pointer to one static _Impl (layout of libstdc++:
+# refcount @0, facets @8, facets_size @16) whose facet table has the ctype<char> (index 0) and collate<char> (index 1) models, so
+# that the inline std::use_facet / std::has_facet header code works on it.
+def _locale_impl(eng):
+    return eng.irm.gaddr['model_locale_impl']
+
+
+@ext('_ZNSt6localeC1Ev', '_ZNSt6localeC2Ev', '_ZNSt6localeC1ERKS_', '_ZNSt6localeC2ERKS_')
 def x_locale_ctor(eng, st, a):
+    eng.mem_write(st, a[0], int_cells(_locale_impl(eng), 8))
+    return 0
+
+
+@ext('_ZNSt6localeD1Ev', '_ZNSt6localeD2Ev')
+def x_locale_dtor(eng, st, a):
     return 0
 
 
 @ext('_ZNSt6locale7classicEv')
 def x_locale_classic(eng, st, a):
-    return _static_obj(eng, st, 'std::locale::classic')
+    p = _static_obj(eng, st, 'std::locale::classic')
+    eng.mem_write(st, p, int_cells(_locale_impl(eng), 8))
+    return p
+
+
+@ext('_ZNKSt6locale2id5_M_idEv')
+def x_locale_id(eng, st, a):
+    g = eng.irm.gaddr
+    if a[0] == g.get('_ZNSt5ctypeIcE2idE'):
+        return 0
+    if a[0] in (g.get('_ZNSt7collateIcE2idE', -1), g.get('_ZNSt7__cxx117collateIcE2idE', -1)):
+        return 1
+    raise EngineError('std::locale::id::_M_id() of a facet that is not modelled (only ctype<char> and collate<char> are)')
+
+
+def _prepare_locale(irm):
+    st = irm.base_state
+    a = max(irm.addr_fn) + 16
+    names = ['model_facet_dtor', 'model_facet_dtor', 'model_collate_compare', 'model_collate_transform', 'model_collate_hash']
+    for n in names:
+        if n not in irm.fn_addr:
+            irm.fn_addr[n] = a; irm.addr_fn[a] = n; a += 16
+    vt = st.alloc(16 + 8 * len(names), 'global', 'vtable (model) std::collate<char>', fill=0)
+    vt.data[8:16] = int_cells(irm.gaddr.get('_ZTINSt7__cxx117collateIcEE', irm.gaddr.get('_ZTISt7collateIcE', 0)), 8)
+    for i, n in enumerate(names):
+        vt.data[16 + 8 * i:24 + 8 * i] = int_cells(irm.fn_addr[n], 8)
+    col = st.alloc(32, 'global', 'std::collate<char> (model, classic locale)', fill=0)
+    col.data[0:8] = int_cells(vt.base + 16, 8)
+    facets = st.alloc(8 * 64, 'global', 'facet table of the classic locale (model)', fill=0)
+    facets.data[0:8] = int_cells(irm.gaddr['model_ctype_object'], 8)
+    facets.data[8:16] = int_cells(col.base, 8)
+    irm.gaddr['model_collate_object'] = col.base
+    impl = st.alloc(40, 'global', 'std::locale::_Impl (model, classic locale)', fill=0)
+    impl.data[0:4] = int_cells(1, 4); impl.data[8:16] = int_cells(facets.base, 8); impl.data[16:24] = int_cells(64, 8)
+    irm.gaddr['model_locale_impl'] = impl.base
+
+
+def _write_std_string(eng, st, out, cells):
+    """construct a std::string (libstdc++ SSO layout) holding cells at address out"""
+    n = len(cells)
+    if n < 16:
+        eng.mem_write(st, out, int_cells(out + 16, 8) + int_cells(n, 8) + list(cells) + [0] * (16 - n))
+    else:
+        o = st.alloc(n + 1, 'heap:new', 'std::string buffer (model)', fill=0)
+        o.data[:n] = list(cells)
+        eng.mem_write(st, out, int_cells(o.base, 8) + int_cells(n, 8) + int_cells(n, 8))
+
+
+@ext('model_collate_transform')
+def x_collate_transform(eng, st, a):
+    # std::string collate<char>::do_transform(const char* lo, const char* hi) const: identity in the "C" locale (strxfrm)
+    out, lo, hi = a[0], a[2], a[3]
+    _write_std_string(eng, st, out, eng.mem_read(st, lo, hi - lo) if hi > lo else [])
+    return out
+
+
+@ext('_ZSt9use_facetINSt7__cxx117collateIcEEERKT_RKSt6locale', '_ZSt9use_facetISt7collateIcEERKT_RKSt6locale')
+def x_use_facet_collate(eng, st, a):
+    return eng.irm.gaddr['model_collate_object']
+
+
+@ext('model_facet_dtor')
+def x_facet_dtor(eng, st, a):
+    return 0
 
 
 @ext('_ZNKSt6localeeqERKS_')
@@ -528,10 +603,31 @@ def _prepare_ctype(irm):
     for c in range(256):
         obj.data[57 + c] = c; obj.data[313 + c] = c
     obj.data[569] = 1
+    vt.data[8:16] = int_cells(irm.gaddr.get('_ZTISt5ctypeIcE', 0), 8)
+    # classification table of the "C" locale (glibc bit values as used by libstdc++'s ctype_base on linux)
+    tab = st.alloc(512, 'global', 'std::ctype<char>::classic_table() (model)', fill=0)
+    for c in range(128):
+        ch = chr(c); m = 0
+        if ch.isupper(): m |= 0x100
+        if ch.islower(): m |= 0x200
+        if ch.isalpha(): m |= 0x400
+        if ch.isdigit(): m |= 0x800
+        if ch in '0123456789abcdefABCDEF': m |= 0x1000
+        if ch in ' \t\n\v\f\r': m |= 0x2000
+        if 32 <= c < 127: m |= 0x4000
+        if 32 < c < 127: m |= 0x8000
+        if ch in ' \t': m |= 0x1
+        if c < 32 or c == 127: m |= 0x2
+        if 32 < c < 127 and not ch.isalnum(): m |= 0x4
+        if ch.isalnum(): m |= 0x8
+        tab.data[2 * c:2 * c + 2] = int_cells(m, 2)
+    tab.ro = True
+    obj.data[48:56] = int_cells(tab.base, 8)
     irm.gaddr['model_ctype_object'] = obj.base
 
 
 MODULE_HOOKS.append(_prepare_ctype)
+MODULE_HOOKS.append(_prepare_locale)
 
 
 @ext('_ZSt9use_facetISt5ctypeIcEERKT_RKSt6locale')
